@@ -61,6 +61,9 @@ func longShapes(entry string, fuel int64) []JobNeed {
 		"<?php\n" + strings.Repeat("$a;\n", 400),
 		"<?php\n" + strings.Repeat("f($a, [1, 'x' => $b->c]) /* c */ ;\n", 120),
 		"<?php " + strings.Repeat("if ($a) { echo \"x $b[0] {$c->d}\"; } else { $e = <<<A\n  t $f\nA;\n }\n", 60),
+		// two to three pieces of trivia in front of every token (1 440 pieces: block boundaries
+		// of a trivia store fall inside one token's list)
+		"<?php\n" + strings.Repeat("/*a*/ $a /*b*/\n# c\n = /*d*/ 1 // e\n ;\n", 120),
 	}
 	for _, ver := range []string{"7.4", "5.6"} {
 		for _, p := range progs {
@@ -75,7 +78,7 @@ func longShapes(entry string, fuel int64) []JobNeed {
 	return out
 }
 
-const longBound = "S9: three concrete programs of 1 600 to 3 000 tokens (repeated statements) under 7.4 and 5.6 - they cross the 1024-entry pool blocks"
+const longBound = "S9: four concrete programs of 1 600 to 3 000 tokens (repeated statements; one with two to three pieces of trivia before every token) under 7.4 and 5.6 - they cross the 1024-entry pool blocks"
 
 func shortBounds(K0, K1, K2 int, vers string) []string {
 	return []string{
